@@ -1,10 +1,50 @@
 """Assumed contracts for small third-party helpers."""
 from __future__ import annotations
 
-from .values import Composed, LibFunc, LibNS, Partial
+from .values import Composed, LibFunc, LibNS, Partial, Unsupported
+
+
+def bisect_model(side):
+    def bisect(I, a, x, lo=0, hi=None, **kw):
+        """bisect.bisect_left/right(a, x, lo): insertion point in the sorted a[lo:], assumed contract
+        (requires a non-decreasing on [lo, n): obliged at the call)"""
+        import z3
+        from . import spec
+        from .lib_numpy import as_arr, elem_term
+        from .floats import as_real
+        from .values import RealV, Quot
+        a = as_arr(I, a)
+        if hi is not None:
+            raise Unsupported("bisect with hi=")
+        p = I.path
+        lo_t = lo if isinstance(lo, z3.ExprRef) else z3.IntVal(int(lo))
+        xv = as_real(x) if (a.kind == "real" or isinstance(x, (RealV, Quot, float))) else elem_term(x, a.kind)
+        at = (lambda k: as_real(a.at(k))) if (a.kind != "real" and z3.is_real(xv)) else a.at
+        ordn = p.ordinal("bisect")
+        p.oblige("pre", f"bisect#{ordn}.sorted-from-lo", spec.forall2(
+            lo_t, a.n, lo_t, a.n, lambda k1, k2: z3.Implies(k1 <= k2, at(k1) <= at(k2))))
+        p.oblige("pre", f"bisect#{ordn}.lo-in-range", z3.And(lo_t >= 0, lo_t <= a.n))
+        pos = p.fresh_int("bisect")
+        p.assume(z3.And(pos >= lo_t, pos <= a.n))
+        if side == "right":
+            p.assume(spec.forall(lo_t, pos, lambda k: at(k) <= xv))
+            p.assume(spec.forall(pos, a.n, lambda k: at(k) > xv))
+        else:
+            p.assume(spec.forall(lo_t, pos, lambda k: at(k) < xv))
+            p.assume(spec.forall(pos, a.n, lambda k: at(k) >= xv))
+        from . import lib_numpy
+        lib_numpy.USED.add("bisect.bisect_" + side)
+        return pos
+    return bisect
 
 
 def install(engine):
+    from .values import Unsupported  # noqa: F401
+    engine.lib["bisect"] = LibNS("bisect", {
+        "bisect_right": LibFunc("bisect.bisect_right", bisect_model("right")),
+        "bisect_left": LibFunc("bisect.bisect_left", bisect_model("left")),
+        "bisect": LibFunc("bisect.bisect", bisect_model("right")),
+    })
     engine.lib["cytoolz"] = LibNS("cytoolz", {
         "compose": LibFunc("cytoolz.compose", lambda I, *fs: Composed(fs)),
     })
